@@ -537,10 +537,27 @@ Fixpoint expr_tables_ok (F : frame) (e : expr) : bool :=
   | _ => true
   end.
 
+(** a global used in a QUERY is read from its table: when the sort recorded in `global_sorts` is no
+    longer the sort of the table (second `let` of the name with another sort, rejected by
+    check_shadowing after typechecking overwrote `global_sorts`), `query_table(..).unwrap()` panics
+    (lib.rs:2776) *)
+Definition global_sort_ok (F : frame) (n : name) : bool :=
+  match lookup (globals F) n with
+  | None => true
+  | Some t => match lookup (funcs F) n with Some sg => name_eqb (f_out sg) t | None => false end
+  end.
+
+Fixpoint expr_globals_ok (F : frame) (e : expr) : bool :=
+  match e with
+  | EVar n => global_sort_ok F n
+  | ECall _ args | EPrim _ args => forallb (expr_globals_ok F) args
+  | _ => true
+  end.
+
 Definition fact_tables_ok (F : frame) (f : fact) : bool :=
   match f with
-  | FEq a b => expr_tables_ok F a && expr_tables_ok F b
-  | FHolds e => expr_tables_ok F e
+  | FEq a b => expr_tables_ok F a && expr_tables_ok F b && (expr_globals_ok F a && expr_globals_ok F b)
+  | FHolds e => expr_tables_ok F e && expr_globals_ok F e
   end.
 
 Definition action_tables_ok (F : frame) (a : action) : bool :=
